@@ -402,6 +402,7 @@ Definition c11_check_raw (raw : bytes) (accepted : bool) : Z :=
                let mid := removelast rest in     (* the third field up to the one before the last *)
                if negb (fst (last rest (0, [])) =? TAG_CHECK_SUM) then 0
                else if existsb (fun f => (fst f =? TAG_CHECK_SUM) || (fst f =? TAG_BODY_LENGTH)) mid then 0
+               else if negb (beq_bytes (ser fs) raw) then 0   (* a tag not in canonical decimal form ("0411"): lengths are the wire's, nothing claimed *)
                else match c11_declared v9 with
                     | Some n => if n =? c11_body_length fs then 0 else 6
                     | None => 6
